@@ -78,17 +78,19 @@ func httpGridEntries(h *harness, f *nodeFixture, run func(*entry), vpTree func(a
 	post func(path string, ct string, body io.Reader, hdr map[string]string) (httpResult, error),
 	tokenReq func(assertion, sub string, hdr map[string]string, extraForm map[string]string) error, audience string) {
 	d := atkDIDJWK()
-	org := func() string { return compact(atkVCTree("NutsOrganizationCredential", "", "")) }
-	other := func() string {
-		return compact(strings.Replace(atkVCTree("OtherCredential", fmt.Sprintf(`{"id":%q,"x":1}`, d), ""), "#c1", "#c2", 1))
-	}
+	// the credentials of the grid have ids of their own and are signed once: the node's credential store refuses another token with the id of a stored credential
+	orgTree := strings.Replace(atkVCTree("NutsOrganizationCredential", "", ""), "#c1", "#grid-org", 1)
+	orgOnce := compact(orgTree)
+	otherOnce := compact(strings.Replace(atkVCTree("OtherCredential", fmt.Sprintf(`{"id":%q,"x":1}`, d), ""), "#c1", "#grid-other", 1))
+	org := func() string { return orgOnce }
+	other := func() string { return otherOnce }
 	wallets := map[string]func() []string{
 		"org":         func() []string { return []string{org()} },
 		"org+other":   func() []string { return []string{org(), other()} },
 		"org+org":     func() []string { o := org(); return []string{o, o} },
 		"other":       func() []string { return []string{other()} },
 		"other+org":   func() []string { return []string{other(), org()} },
-		"org+org-new": func() []string { return []string{org(), org()} }, // the same credential signed twice (ECDSA: two different tokens)
+		"org+org-new": func() []string { return []string{org(), compact(orgTree)} }, // the same credential signed twice (ECDSA: two different tokens with one id)
 	}
 	walletNames := []string{"org", "org+other", "org+org", "other", "other+org", "org+org-new"}
 	sign := func(tree string, validFor time.Duration) string {
